@@ -2,11 +2,13 @@ use crate::report::Report;
 use crate::Cfg;
 
 pub mod c01;
+pub mod c02;
 pub mod c12;
 
 pub fn run(prop: &str, cfg: &Cfg, rep: &mut Report) -> bool {
     match prop {
         "C01" => c01::run(cfg, rep),
+        "C02" => c02::run(cfg, rep),
         "C12" => c12::run(cfg, rep),
         _ => return false,
     }
